@@ -703,6 +703,14 @@ def _d_call_value(self, st, f, pos, kw):
             st.heap.maps["dct#val"] = val.store(n, val.select(d.ref))
             st.heap.maps["dct#valnan"] = vn.store(n, vn.select(d.ref))
             return [(st, DictObjV(n, d.desc + ".copy()"))]
+        if f.name == "get" and len(pos) in (1, 2) and isinstance(pos[0], StrV):
+            # d.get(key[, default]) on a name -> float dict: the stored value, the default (None -> undecided) when absent
+            if len(pos) == 1:
+                self._undecided("dict.get without default on a float dict")
+            dv = self._num(st, pos[1])
+            hasv = dict_has(st.heap, d.ref, pos[0].term)
+            cur = dict_get(st.heap, d.ref, pos[0].term)
+            return [(st, dsl.ite(hasv, cur, dv))]
     return _old_call_value(self, st, f, pos, kw)
 
 
